@@ -36,7 +36,11 @@ META = dict(
                "state._values, caller DataFrame / Data / Dataset / AlgorithmSettings / IndividualParameters, repeat-call identity and "
                "identity with the same call on load(save(copy of the model)). History independence is REFUTED for scipy_minimize "
                "(C13_scipy_start_refuted, finding F6) and reproduced on the code.",
-    level_note="Not covered by proof: pandas / joblib aliasing of caller tables and Data objects (snapshots only), the optimiser and "
+    level_note="Source-level tie (extension): harness/translate/c13_calls.py regenerates coq/gen/GenC13.v (estimate, MCMC personalisation, "
+               "scipy_minimize as programs over named objects, the footprint of simulate, the kind of copy of the settings) from the "
+               "python ast; Api/SrcProg*.v prove for every instance that they denote the scripts of Api/ApiCalls.v with the theorems' shape "
+               "predicates (C13_src_*), and every recorded call is checked inside Coq to be an execution of the generated program. "
+               "Not covered by proof: pandas / joblib aliasing of caller tables and Data objects (snapshots only), the optimiser and "
                "samplers (arbitrary bodies in the theorems), n_jobs > 1, GPU. Trusted: Coq kernel, harness/recorder.py (wraps State "
                "methods and RNG entry points in-process), the canonical digests of tensors / tables / objects in this file.",
     design_ref="DESIGN.md section 4 C13, section 6 F6",
@@ -1219,6 +1223,10 @@ def main(run: Run):
         "save -> load reproduces the parameters exactly (C12); when it does not (float64 parameters of joint / mixture fits) the "
         "comparison with the fresh object is skipped and counted",
     ]
+    run.assumptions += ["sampling_ok: the samplers of MCMC personalisation assign data / individual variables only (hypothesis of "
+                        "C13_src_mcmc_call_clean, evaluated inside Coq on every recorded call)",
+                        "the opaque callees (samplers, scipy's objective, put_individual_parameters) only touch the State they are handed: "
+                        "checked syntactically by the translator"]
     run.trusted += ["harness/recorder.py (wrappers around State methods and RNG entry points)",
                     "Coq evaluation (vm_compute) of Api/ApiCallsTie.v checkers on encoded traces",
                     "harness/props/c13.py canon(): bit-exact canonical form of tensors, arrays, tables and objects"]
